@@ -131,38 +131,7 @@ for _cname in list(CONTENTS) + ["objects built with default arguments"]:
                     yield ("scenario %s reproduced" % k,) + approx_parts(F.attr(inp["sc"], k), F.attr(sc2, k), tol, F, path=k)
 
 
-def _state_of(F, cls, t, p):
-    import dataclasses
-
-    import commonroad.scenario.state as st
-    from contracts.c01 import ang, pos
-
-    kw = {}
-    for f in dataclasses.fields(cls):
-        if f.name == "time_step":
-            kw[f.name] = t
-        elif f.name == "position":
-            kw[f.name] = pos(F, p + "p")
-        elif f.name == "orientation":
-            kw[f.name] = ang(F, p + "o")
-        elif f.name == "hitch_angle":
-            kw[f.name] = ang(F, p + "h")
-        else:
-            kw[f.name] = F.real(p + f.name)
-    return F.new(cls, **kw)
-
-
-def _state_classes():
-    import dataclasses
-
-    import commonroad.scenario.state as st
-
-    out = []
-    for cls in st.SpecificStateClasses:
-        names = {f.name for f in dataclasses.fields(cls)}
-        if cls is not st.InitialState and {"position", "time_step"} <= names:
-            out.append(cls)
-    return out
+from contracts.c01 import mk_trajectory_scenario, state_classes as _state_classes  # noqa: E402
 
 
 for _cls in _state_classes():
@@ -175,20 +144,46 @@ for _cls in _state_classes():
         describe = "dynamic obstacle whose trajectory states are of this class: the reader picks the same class and every value is identical"
 
         def build(self, F):
-            from commonroad.geometry.shape import Rectangle
-            from commonroad.prediction.prediction import TrajectoryPrediction
-            from commonroad.scenario.obstacle import DynamicObstacle, ObstacleType
-            from commonroad.scenario.scenario import Location, Scenario, ScenarioID
-            from commonroad.scenario.trajectory import Trajectory
-            from contracts.c01 import initial_state, positive
-
-            sc = F.new(Scenario, positive(F, "dt"), F.new(ScenarioID), "author", set(), "affiliation", "source", F.new(Location))
-            shape = F.new(Rectangle, positive(F, "o_l"), positive(F, "o_w"))
-            traj = F.new(Trajectory, 1, [_state_of(F, self.cls, 1, "s1_"), _state_of(F, self.cls, 2, "s2_")])
-            F.method(sc, "add_objects", F.new(DynamicObstacle, 11, ObstacleType.CAR, shape, initial_state(F, "i_"), F.new(TrajectoryPrediction, traj, shape)))
+            sc = mk_trajectory_scenario(F, self.cls)
             fits_int32(F)
             return {"sc": sc, "pps": F.new(PlanningProblemSet), "args": []}
 
         content = ("dynamic",)
         invoke = WholeFile.invoke
         post = WholeFile.post
+
+
+@register
+class ShapeGroupObstaclePb(PbRoundTrip):
+    target = "commonroad.common.file_writer.CommonRoadFileWriter.write_to_file"
+    case = "protobuf, obstacle with a shape group (rectangle + circle)"
+    content = ("dynamic",)
+    describe = "a ShapeGroup obstacle shape is written member by member and read back as the same group"
+
+    def build(self, F):
+        import commonroad.scenario.state as st
+
+        sc = mk_trajectory_scenario(F, st.KSState, "group")
+        fits_int32(F)
+        return {"sc": sc, "pps": F.new(PlanningProblemSet), "args": []}
+
+    invoke = WholeFile.invoke
+    post = WholeFile.post
+
+
+@register
+class IntervalStatesPb(PbRoundTrip):
+    target = "commonroad.common.file_writer.CommonRoadFileWriter.write_to_file"
+    case = "protobuf, trajectory states with interval-valued and region-valued attributes"
+    content = ("dynamic",)
+    describe = "exact / interval / region valued attributes of trajectory states keep their kind and their values"
+
+    def build(self, F):
+        from contracts.c01 import IntervalStatesXml
+
+        inp = IntervalStatesXml.build(self, F)
+        fits_int32(F)
+        return inp
+
+    invoke = WholeFile.invoke
+    post = WholeFile.post
